@@ -136,14 +136,38 @@ Definition eisinf (a : ER) (s : Z) : bool :=
 Definition el1 (f : R -> R) (a : ER) : ER := match a with EFin x => EFin (f x) | _ => ENaN end.
 Definition el2 (f : R -> R -> R) (a b : ER) : ER := match a, b with EFin x, EFin y => EFin (f x y) | _, _ => ENaN end.
 
-(* math.Pow at finite operands is Spec.rpow; at non-finite operands only the cases the op table reaches with
-   the constant exponents 0.5 and 2 are given (C99: Pow(+-Inf, 2) = +Inf, Pow(+Inf, .5) = Pow(-Inf, .5) = +Inf) *)
+(* math.Pow on ER (round 6: the WHOLE special-case table of C99 Annex F / Go's math.Pow; before, only the cases reached
+   with the constant exponents 0.5 and 2 were given):
+     x^0 = 1 for every x (NaN included);  1^y = 1 for every y (NaN, +-Inf included);  NaN otherwise propagates;
+     x > 0: exp(y ln x);  0^y = 0 for y > 0, +oo for y < 0 (R has one zero: the sign IEEE gives to (-0)^odd is not represented);
+     x < 0: x^n for an integer exponent n (sign (-1)^n), NaN for a non-integer exponent;
+     x^(+oo) = 0 / 1 / +oo for |x| < 1 / = 1 / > 1 (also x = -1: 1), x^(-oo) the reverse;
+     (+oo)^y = +oo / 0 for y > 0 / y < 0;  (-oo)^y = -oo for odd integers y > 0, +oo for other y > 0, 0 for y < 0.
+   It agrees with Spec.rpow wherever rpow is meaningful (ProofsPow.epow_rpow). *)
+Definition Rint (y : R) : bool := Reqb y (IZR (Int_part y)).
+Definition Rodd (y : R) : bool := Rint y && Z.odd (Int_part y).
 Definition epow (a b : ER) : ER :=
-  match a, b with
-  | EFin x, EFin y => EFin (rpow x y)
-  | ENaN, _ | _, ENaN => ENaN
-  | (EPInf | ENInf), EFin y => if Rlt_dec 0 y then EPInf else if Rlt_dec y 0 then EFin 0 else EFin 1
-  | _, _ => ENaN
+  match b with
+  | EFin y =>
+      if Req_EM_T y 0 then EFin 1
+      else match a with
+           | ENaN => ENaN
+           | EFin x =>
+               if Rlt_dec 0 x then EFin (Rpower x y)
+               else if Req_EM_T x 0 then (if Rlt_dec 0 y then EFin 0 else EPInf)
+               else if Rint y then EFin (powerRZ x (Int_part y)) else ENaN
+           | EPInf => if Rlt_dec 0 y then EPInf else EFin 0
+           | ENInf => if Rlt_dec 0 y then (if Rodd y then ENInf else EPInf) else EFin 0
+           end
+  | ENaN => match a with EFin x => if Req_EM_T x 1 then EFin 1 else ENaN | _ => ENaN end
+  | EPInf | ENInf =>
+      let up := match b with EPInf => true | _ => false end in
+      match a with
+      | ENaN => ENaN
+      | EFin x => if Req_EM_T (Rabs x) 1 then EFin 1
+                  else if Bool.eqb (Rltb (Rabs x) 1) up then EFin 0 else EPInf
+      | _ => if up then EPInf else EFin 0
+      end
   end.
 
 Definition CarE (sp : specials) : Car ER :=
